@@ -323,6 +323,7 @@ func TestVerif_C13(t *testing.T) {
 				c.Count("streams_with_failing_stops", 1)
 			}
 			badSeq := map[int]bool{}
+			badWhileRecording := false
 			var verdicts, twinVerdicts []bool
 			nbad := 0
 			for i, f := range frames {
@@ -349,6 +350,7 @@ func TestVerif_C13(t *testing.T) {
 					}
 					if wasOpen {
 						c.Count("recordings_ended_by_bad_frame", 1)
+						badWhileRecording = true
 					}
 					if rig.flag.hit {
 						c.Violation("bad-frame-reached-detector", cam.Model, fmt.Sprintf("motion callback on rejected frame %d", i))
@@ -416,7 +418,15 @@ func TestVerif_C13(t *testing.T) {
 					ts += fmt.Sprintf("%d ", op.Seq)
 				}
 			}
-			_ = ts
+			if !badWhileRecording && myIdx%3 != 0 && ms != ts {
+				// no recording was interrupted (and storage was healthy): the rejected frames must have
+				// left no trace at all - not in the trigger run either
+				c.Violation("bad-frame-changed-later-recordings", cam.Model, fmt.Sprintf("no bad frame arrived during a recording, yet the motion recordings differ from those of the same stream with the bad frames deleted:\n%s\nvs\n%s", ms, ts))
+				return
+			}
+			if !badWhileRecording && nbad > 0 {
+				c.Count("streams_with_bad_frames_only_outside_recordings", 1)
+			}
 			c.Count("streams", 1)
 			c.Count("bad_frames_in_streams", int64(nbad))
 			c.Count("valid_frames_compared", int64(len(verdicts)))
